@@ -15,7 +15,7 @@
 (* cases on the real Tour / Schedule code and TraceTour.tla validates the  *)
 (* results.                                                                *)
 (***************************************************************************)
-EXTENDS Tour, Json
+EXTENDS TourCache, Json
 
 CONSTANTS MaxActs, MaxMnt, Starts, Durs, Emit,
           CfgShMin, CfgShDh, CfgForbid, CfgAsym, CfgDh   \* one configuration per TLC run (runs go in parallel)
@@ -80,6 +80,7 @@ Perms(S) == {s \in [1..Cardinality(S) -> S] : \A i, j \in 1..Cardinality(S) : i 
 Chains(N) == UNION {{s \in Perms(S) : ValidSeq(N, s)} : S \in SUBSET ActIds(N) \ {{}}}
 RealTours(N) == {<<d[1]>> \o c \o <<d[2]>> : c \in Chains(N),
                    d \in {<<"s_D0", "e_D1">>, <<"s_OVERFLOW_DEPOT", "e_OVERFLOW_DEPOT">>}}
+                \cup {<<"s_OVERFLOW_DEPOT">> \o c \o <<"e_D1">> : c \in {x \in Chains(N) : Len(x) = 1}}
 DummyTours(N) == {c \in Chains(N) : \A i \in DOMAIN c : N.nd[c[i]].k = "svc"}
 Paths(N) == Chains(N)
             \cup {<<"s_D1">> \o c : c \in Chains(N)}
@@ -120,6 +121,10 @@ LawsOf(N) ==
   /\ \A t \in RealTours(N) : RemoveLaws(N, t, FALSE) /\ RoundTrip(N, t)
                               /\ \A p \in Paths(N) : InsertLaws(N, t, p, FALSE)
   /\ \A t \in DummyTours(N) : RemoveLaws(N, t, TRUE) /\ \A p \in Paths(N) : InsertLaws(N, t, p, TRUE)
+  \* the delta formulas of the tour caches are exact (TourCache.tla)
+  /\ \A t \in RealTours(N) \cup {<<"s_OVERFLOW_DEPOT">> \o c \o <<"e_D1">> : c \in Chains(N)} :
+        CacheLaws(N, t, FALSE, Paths(N))
+  /\ \A t \in DummyTours(N) : CacheLaws(N, t, TRUE, Paths(N))
 Laws == LET N == NetOf(net) IN LawsOf(N)
 
 (* ---------------- emission ---------------- *)
